@@ -128,4 +128,76 @@ def sqrtinvOK (xs ws : List Rat) (b : Int) (rel : Bool) (tol : Rat) (d : Nat) : 
 def gaussOK (xs ws : List Rat) (a : Int) (target : Nat → Rat) (rel : Bool) (tol : Rat) : Bool :=
   allUpTo a fun k => decide (absQ (moment xs ws k - target k) ≤ tolFor rel tol (target k))
 
+
+/-! ### table entries and per-family certificates -/
+
+/-- one branch of an `if/elif` chain of `src/quadrature_rules.py` -/
+structure Entry where
+  k1 : Int
+  k2 : Int
+  /-- the branch ends in `return` -/
+  returns : Bool
+  nodes : List Dec
+  weights : List Dec
+  nodesD : List Dbl
+  weightsD : List Dbl
+
+def Entry.xs (e : Entry) : List Rat := e.nodes.map Dec.toRat
+def Entry.ws (e : Entry) : List Rat := e.weights.map Dec.toRat
+def Entry.xsD (e : Entry) : List Rat := e.nodesD.map Dbl.toRat
+def Entry.wsD (e : Entry) : List Rat := e.weightsD.map Dbl.toRat
+
+inductive Family | log | loglog | sqrt | sqrtinv | gaussSqrtinv | gaussX | gaussLog
+deriving DecidableEq, Repr
+
+/-- number of atanh terms / decimal digits of the square root used by the certificates -/
+def logTerms : Nat := 40
+def sqrtDigits : Nat := 40
+
+/-- degree of exactness of an `n`-point Gauss rule -/
+def gaussDeg (xs : List Rat) : Int := 2 * (xs.length : Int) - 1
+
+/-- the advertised class of a family, checked on nodes `xs` and weights `ws` -/
+def classOK (f : Family) (k1 k2 : Int) (xs ws : List Rat) (rel : Bool) (tol : Rat) : Bool :=
+  shapeOK xs ws &&
+  match f with
+  | .log => polyOK xs ws k1 rel tol && logOK xs ws k2 rel tol logTerms
+  | .loglog => polyOK xs ws k1 rel tol && logOK xs ws k2 rel tol logTerms && log1mOK xs ws k2 rel tol logTerms
+  | .sqrt => polyOK xs ws k1 rel tol && sqrtOK xs ws k2 rel tol sqrtDigits
+  | .sqrtinv => polyOK xs ws k1 rel tol && sqrtinvOK xs ws k2 rel tol sqrtDigits
+  | .gaussSqrtinv => gaussOK xs ws (gaussDeg xs) (fun k => 2 / (2 * k + 1)) rel tol
+  | .gaussX => gaussOK xs ws (gaussDeg xs) (fun k => 1 / (k + 2)) rel tol
+  | .gaussLog => gaussOK xs ws (gaussDeg xs) (fun k => -1 / (k + 1) ^ 2) rel tol
+
+/-- the key of a Gauss family entry promises at least the degree its scheme constructor relies on
+(`N = (N_poly+1)//2`): `2N-1` for the `1/√x` and `x` weights, `2N` for the `-log x` weight -/
+def keyOK (f : Family) (k1 : Int) (xs : List Rat) : Bool :=
+  match f with
+  | .gaussSqrtinv | .gaussX => decide (2 * k1 - 1 ≤ gaussDeg xs)
+  | .gaussLog => decide (2 * k1 ≤ gaussDeg xs)
+  | _ => true
+
+/-- tolerance claimed for the literals as written: `1e-30` relative to the exact value, except for the
+two low-precision tables `gauss_log_quadrature_rule(15)` and `(31)` (31 and 41 digits), which reach only
+`1e-18` (recorded as a known finding of property C05) -/
+def litTol (f : Family) (k1 : Int) : Rat :=
+  if f = .gaussLog ∧ (k1 = 15 ∨ k1 = 31) then 1 / 10 ^ 18 else 1 / 10 ^ 30
+
+def dblTol : Rat := 1 / 10 ^ 13
+
+/-- certificate for the literals as written in the source -/
+def litOK (f : Family) (e : Entry) : Bool :=
+  keyOK f e.k1 e.xs && classOK f e.k1 e.k2 e.xs e.ws true (litTol f e.k1)
+
+def allRound : List Dec → List Dbl → Bool
+  | [], [] => true
+  | l :: ls, d :: ds => roundsTo l d && allRound ls ds
+  | _, _ => false
+
+/-- certificate for the binary64 values: each is a correct rounding of its literal, and the rounded
+rule has relative moment defects of at most `1e-13` -/
+def dblOK (f : Family) (e : Entry) : Bool :=
+  allRound e.nodes e.nodesD && allRound e.weights e.weightsD &&
+    classOK f e.k1 e.k2 e.xsD e.wsD true dblTol
+
 end Stbem.Rules
